@@ -6,7 +6,7 @@ use std::cell::RefCell;
 use std::collections::BTreeMap;
 use std::sync::atomic::{AtomicBool, AtomicU64, AtomicUsize, Ordering};
 use std::sync::Mutex;
-use std::time::Instant;
+use std::time::{Duration, Instant};
 
 pub fn verif_dir() -> String {
     std::env::var("VERIF_DIR").unwrap_or_else(|_| "/verif".to_string())
@@ -76,10 +76,79 @@ pub fn install_quiet_panic_hook() {
     }));
 }
 
+// ---------------------------------------------------------------------------------------------
+// Watchdog: every guarded call into garble_lang records when it started; a call that does not
+// return for a very long time is a hang of the subject (property C07: it must terminate promptly)
+// and would otherwise make the check itself never finish.
+
+struct CallSlot {
+    /// milliseconds since process start at which the outermost guarded call began (0 = none)
+    started_ms: std::sync::atomic::AtomicU64,
+    context: Mutex<String>,
+}
+
+static CALL_SLOTS: Mutex<Vec<std::sync::Arc<CallSlot>>> = Mutex::new(Vec::new());
+static PROCESS_START: std::sync::OnceLock<Instant> = std::sync::OnceLock::new();
+
+thread_local! {
+    static MY_SLOT: std::sync::Arc<CallSlot> = {
+        let s = std::sync::Arc::new(CallSlot { started_ms: std::sync::atomic::AtomicU64::new(0), context: Mutex::new(String::new()) });
+        CALL_SLOTS.lock().unwrap().push(s.clone());
+        s
+    };
+}
+
+fn now_ms() -> u64 {
+    PROCESS_START.get_or_init(Instant::now).elapsed().as_millis() as u64 + 1
+}
+
+/// what the current thread is working on (shown if one of its calls never returns)
+pub fn set_context(what: &str) {
+    MY_SLOT.with(|s| {
+        let mut c = s.context.lock().unwrap();
+        c.clear();
+        c.push_str(&what.chars().take(4000).collect::<String>());
+    });
+}
+
+/// Starts the watchdog thread: exits with a C07 violation when a guarded call exceeds `limit_s`.
+pub fn start_watchdog(property: &str, limit_s: f64) {
+    let property = property.to_string();
+    let _ = now_ms();
+    std::thread::spawn(move || loop {
+        std::thread::sleep(Duration::from_millis(2000));
+        let now = now_ms();
+        let slots = CALL_SLOTS.lock().unwrap().clone();
+        for s in slots {
+            let st = s.started_ms.load(Ordering::Relaxed);
+            if st != 0 && now.saturating_sub(st) as f64 > limit_s * 1000.0 {
+                let ctx = s.context.lock().unwrap().clone();
+                let dir = format!("{}/replay/{}", verif_dir(), property);
+                let _ = std::fs::create_dir_all(&dir);
+                let path = format!("{dir}/call_does_not_return__hang__1.json");
+                let body = json!({"property": "C07", "site": "watchdog/call-does-not-return", "kind": "hang", "input": "", "case": {"kind": "context", "text": ctx}, "detail": format!("a call into garble_lang made by the {property} check has not returned for {limit_s} s")});
+                let _ = std::fs::write(&path, serde_json::to_string_pretty(&body).unwrap());
+                println!("VIOLATION property=C07 replay={path}");
+                println!("  site=watchdog/call-does-not-return kind=hang :: a call into garble_lang made by the {property} check has not returned for {limit_s} s; context: {}", ctx.lines().next().unwrap_or("").chars().take(200).collect::<String>());
+                std::process::exit(1);
+            }
+        }
+    });
+}
+
 /// Runs `f`, turning a Rust panic into Err(message with location).
 pub fn catch<T>(f: impl FnOnce() -> T) -> Result<T, String> {
-    IN_CATCH.with(|c| *c.borrow_mut() += 1);
+    let outermost = IN_CATCH.with(|c| {
+        *c.borrow_mut() += 1;
+        *c.borrow() == 1
+    });
+    if outermost {
+        MY_SLOT.with(|s| s.started_ms.store(now_ms(), Ordering::Relaxed));
+    }
     let r = std::panic::catch_unwind(std::panic::AssertUnwindSafe(f));
+    if outermost {
+        MY_SLOT.with(|s| s.started_ms.store(0, Ordering::Relaxed));
+    }
     IN_CATCH.with(|c| *c.borrow_mut() -= 1);
     match r {
         Ok(v) => Ok(v),
